@@ -128,6 +128,8 @@ class Engine(ExprMixin, CallMixin, StmtMixin):
             vname, cls = ty.split(':')
             return v.ty == 'obj' and cls in self.repo.mro(v.a['cls']) and self.matches(v, vname)
         if ty == 'elist':
+            if v.ty == 'obj' and v.a.get('view', '') == 'TexArgs':
+                return True
             try:
                 from contracts.tree import as_eseq
                 as_eseq(v)
